@@ -14,7 +14,7 @@ import storegen
 from checks import storecheck as sc
 
 LEVEL = "model_checking"
-CLAUSES = {"C15completes", "C15same", "C15classes"}
+CLAUSES = {"C15completes", "C15same", "C15classes", "C15all"}
 FLAGS = ((1, 0), (1, 1), (0, 0), (0, 1))
 
 
@@ -35,11 +35,15 @@ def b3_configs(tier):
                                            props=store.PROPS_RUNS, timeout=3000))]
 
 
+from storecli import cli_family  # noqa: E402
+
+
 def run(chk, tier, seed):
     m = sc.b3(chk, b3_configs(tier))
     scns = storegen.c15_scenarios(tier, seed)
     st = {}
     n, ndrift = sc.run_and_validate(chk, scns, CLAUSES, stats=st)
+    ncli, ncliruns = cli_family(chk, tier, seed, st, {"C15completes", "C15same", "C15all"}, "c15cli")
     nontriv = sum(1 for s in scns if len(s["runs"]) >= 2)
     cov = {"states": m["states"] + st.get("conf_states", 0) + st.get("obs_states", 0),
            "transitions": m["transitions"] + st.get("conf_generated", 0) + st.get("obs_generated", 0),
@@ -49,9 +53,11 @@ def run(chk, tier, seed):
                    "re-delivered spans in the files); every run is a separate "
                    "process on one sqlite file; non-trivial = history of at least two runs",
            "process_runs": sum(len(s["runs"]) for s in scns),
+           "cli_histories": ncli, "cli_process_runs": ncliruns,
            "model_runs": m["runs"], "model_drift_executions": ndrift, "conformance_action_counts": st.get("actions", {}),
            "exhaustive": False}
-    return cov, ["runs are forked processes executing tel2puml.otel_to_pv.otel_to_pv (the CLI route is exercised by C14)",
+    return cov, ["most runs are forked processes executing tel2puml.otel_to_pv.otel_to_pv; a small family goes through the real "
+                 "command line (python -m tel2puml otel2pv [-ni] [-ug] -se) on JSON files",
                  "re-ingestion feeds the same stream again"]
 
 
